@@ -290,6 +290,14 @@ func (d *trieDriver) runSweep(k sweepCase) (res sweepRes) {
 					bad("proof-wrong-value", "Prove(k%d) → VerifyProof yields %s, content has %s", key, short(v1), short(want[i]))
 				case e2 != nil || !bytes.Equal(v2, want[i]):
 					bad("proof-rejected-by-reference-verifier", "proof for k%d verified by the reference VerifyProof: %s, %v; content has %s", key, short(v2), e2, short(want[i]))
+				default:
+					um := newProofMap()
+					if err := up.prove(path, um); err != nil {
+						core.Fatal("reference trie Prove failed: %v", err)
+					}
+					if !sameProof(pm, um) {
+						bad("proof-differs-from-reference", "Prove(k%d): %d proof nodes, the reference trie driven by the same history gives %d (or a node differs)", key, len(pm.m), len(um.m))
+					}
 				}
 			}
 		}
